@@ -184,6 +184,9 @@ class STr(MTr):
         self.reads = 0
         self.loops = []
         self.in_prop = []
+        self.uses_mk = False          # the cell constructor `mk` (a parameter) is used, directly or by a callee
+        self.mutates = False          # the method changes the state of self
+        self.cond = 0                 # > 0 while the test of an if / assert is translated (numbers in and / or mean "non-zero")
         self.flags = {}               # local name -> True / False while it holds that literal (decides `if flag:` statically)
         self.unwrapped = {}           # source text of an optional expression -> (lean name, type) inside `if <expr> is not None`
         for n in ast.walk(fn):
@@ -195,7 +198,7 @@ class STr(MTr):
 
     # ------------------------------------------------------------------ state
     def state_ty(self):
-        return self.prog.lean_ty(self.value_ty) if self.value_ty else self.decl['state']
+        return self.prog.lean_ty(self.value_ty) if self.value_ty else self.decl.get('state') or self.decl['lean']
 
     def self_attr(self, attr):
         """(lean text, type, field | None) of `self.<attr>`: a declared attribute or a property"""
@@ -271,8 +274,18 @@ class STr(MTr):
                 hit = hit or t in members
             return hit
         if isinstance(e, ast.Compare) and len(e.ops) == 1 and isinstance(e.ops[0], (ast.Is, ast.IsNot)) and \
-                isinstance(e.comparators[0], ast.Constant) and e.comparators[0].value is None and isinstance(e.left, ast.Name):
-            t = self.env.get(e.left.id)
+                isinstance(e.comparators[0], ast.Constant) and e.comparators[0].value is None:
+            if isinstance(e.left, ast.Name):
+                t = self.env.get(e.left.id)
+            elif isinstance(e.left, ast.Attribute):
+                save = (list(self.pre), self.fresh, self.reads)
+                try:
+                    t = self.expr(e.left)[1]
+                except Untranslatable:
+                    t = None
+                self.pre, self.fresh, self.reads = save
+            else:
+                t = None
             if t is None or t == POISON or is_opt(t):
                 return None
             r = t == NONE
@@ -341,6 +354,10 @@ class STr(MTr):
                 if is_opt(xt):
                     return (f'({x} = none)' if isinstance(e.ops[0], ast.Is) else f'({x} ≠ none)'), PROP
             raise Untranslatable('`is` comparison')
+        if isinstance(e, ast.BoolOp) and self.cond:
+            first = self.truth(self.expr(e.values[0]))
+            rest = [self.guarded(lambda v=v: self.truth(self.expr(v))) for v in e.values[1:]]
+            return '(' + (' ∨ ' if isinstance(e.op, ast.Or) else ' ∧ ').join([first] + rest) + ')', PROP
         if isinstance(e, ast.BinOp) and isinstance(e.op, ast.Add):
             save = (list(self.pre), self.fresh, self.reads)
             l = self.expr(e.left)
@@ -489,6 +506,10 @@ class STr(MTr):
             if t != want:
                 raise Untranslatable(f'{cname}: field {fld} gets a {t}, declared {want}')
             items.append(f'{fld} := {v}')
+        if c.get('via') == 'mk':
+            # the constructor is a PARAMETER of the translation (it may raise): `mk bits refs`
+            self.uses_mk = True
+            return self.hoist('mk ' + ' '.join(par(i.split(' := ', 1)[1]) for i in items), 'cell'), OBJ(cname)
         items += [f'{k} := {v}' for k, v in c.get('rest', {}).items()]
         return f'({{ {", ".join(items)} }} : {d["lean"]})', OBJ(cname)
 
@@ -497,6 +518,8 @@ class STr(MTr):
         if self.nohoist:
             raise Untranslatable('a mutating call occurs where Python evaluates it conditionally')
         self.pre.append((kind, name, term))
+        if kind in ('set', 'bindS'):
+            self.mutates = True
         self.reads = 0
 
     def recv_self(self, v, r0):
@@ -533,6 +556,9 @@ class STr(MTr):
                 return txt, vt
             if attr is not None and t.startswith('state:'):
                 return self.sub_call(e, attr, t[6:], f.attr, r0)
+            if attr is not None and t == REFS and f.attr == 'copy' and not e.args and not e.keywords and self.prog.externs.get('copy=value'):
+                txt, vt, _ = self.self_attr(v.attr)
+                return txt, vt
             if attr is not None and t == REFS and f.attr == 'append' and len(e.args) == 1 and not e.keywords:
                 x, xt = self.expr(e.args[0])
                 if xt != REF:
@@ -561,14 +587,32 @@ class STr(MTr):
         base, bt = self.expr(v)
         if bt == BITS and f.attr == 'tobytes' and not e.args and not e.keywords:
             return f'(bitsToBytes {base})', BYTES
-        if bt.startswith('obj:') and self.prog.classes[bt[4:]].get('kind') == 'state' and not isinstance(v, ast.Name):
-            # a method of a TEMPORARY object of a state class (`self.copy().load_address()`): its state is dropped
-            args = self.prog.coerce_args(bt[4:], f.attr, self.typed_args(e))
-            info = self.prog.method(bt[4:], f.attr, [t for _, t in args])
-            term = f'({info["lean"]} {" ".join(par(x) for x, _ in args)}'.rstrip() + f' {base}).2'
+        if bt.startswith('obj:') and self.prog.classes[bt[4:]].get('node') is not None and f.attr not in ('copy',):
+            cls = bt[4:]
+            is_state = self.prog.classes[cls].get('kind') == 'state'
+            args = self.prog.coerce_args(cls, f.attr, self.with_defaults(cls, f.attr, self.typed_args(e)))
+            info = self.prog.method(cls, f.attr, [t for _, t in args])
+            term = f'{self.callee(info)} {" ".join(par(x) for x, _ in args)}'.rstrip() + f' {base}'
+            local = isinstance(v, ast.Name) and v.id not in self.py_params and v.id in self.env
+            if isinstance(v, ast.Name) and not local:
+                # a method of a parameter object: it may not change it
+                if info.get('mutates'):
+                    raise Untranslatable(f'{f.attr} mutates the parameter {v.id}')
+                if info['ret'] in (SELF, NONE):
+                    raise Untranslatable(f'{f.attr} on a parameter returns no value')
+                x = self.hoist(f'({term}).2', 'r')
+                return ((f'({x} = true)', PROP) if info['ret'] == BOOL else (x, info['ret']))
+            if not is_state:
+                raise Untranslatable(f'method {f.attr} of a local {cls}')
+            # a local / temporary object of a state class: its state is threaded (a local name is rebound), a raise ends the method
+            stv = lname(v.id) if local else self.tmp('st')
+            if self.nohoist:
+                raise Untranslatable('a call on a local object occurs where Python evaluates it conditionally')
             if info['ret'] in (SELF, NONE):
-                raise Untranslatable(f'{f.attr} on a temporary object returns no value')
-            x = self.hoist(term, 'r')
+                self.pre.append(('bindL', (stv, '_u'), term))
+                return (stv, OBJ(cls)) if info['ret'] == SELF else ('()', NONE)
+            x = self.tmp('r')
+            self.pre.append(('bindL', (stv, x), term))
             return ((f'({x} = true)', PROP) if info['ret'] == BOOL else (x, info['ret']))
         if bt == STR and f.attr == 'encode' and not e.args and not e.keywords and self.prog.externs.get('str=utf8'):
             return base, BYTES                    # declared: a str travels as its UTF-8 bytes
@@ -589,6 +633,12 @@ class STr(MTr):
             out.append((str(ds[k].value), NAT))
         return out
 
+    def callee(self, info):
+        if info.get('mk'):
+            self.uses_mk = True
+            return info['lean'] + ' mk'
+        return info['lean']
+
     def typed_args(self, e):
         if e.keywords:
             raise Untranslatable('keyword arguments')
@@ -608,7 +658,7 @@ class STr(MTr):
         info = self.prog.method(cls, name, [t for _, t in args])
         if r0:
             raise Untranslatable('self is read before a mutating call in the same statement')
-        term = f'{info["lean"]} {" ".join(par(v) for v, _ in args)}'.rstrip() + ' self'
+        term = f'{self.callee(info)} {" ".join(par(v) for v, _ in args)}'.rstrip() + ' self'
         x = self.tmp('r')
         self.mutate('bindS', x if info['ret'] not in (SELF, NONE) else '_u', term)
         if info['ret'] in (SELF, NONE):
@@ -624,7 +674,7 @@ class STr(MTr):
         if r0:
             raise Untranslatable('self is read before a mutating call in the same statement')
         fld = self.decl['fields'][attr]
-        term = f'Py.zoom ({info["lean"]} {" ".join(par(v) for v, _ in args)}'.rstrip() + f' self.{fld}) (fun v => {{ self with {fld} := v }})'
+        term = f'Py.zoom ({self.callee(info)} {" ".join(par(v) for v, _ in args)}'.rstrip() + f' self.{fld}) (fun v => {{ self with {fld} := v }})'
         x = self.tmp('r')
         self.mutate('bindS', x if info['ret'] not in (SELF, NONE) else '_u', term)
         if info['ret'] in (SELF, NONE):
@@ -684,6 +734,8 @@ class STr(MTr):
                 body = f'let self := {t}\n{body}'
             elif kind == 'setl':
                 body = f'let {name} := {t}\n{body}'
+            elif kind == 'bindL':
+                body = f'Py.bindL ({t}) self fun {name[0]} {name[1]} =>\n{body}'
             else:
                 body = f'if ¬ {t} then (self, none) else\n{body}'
         return body
@@ -700,7 +752,8 @@ class STr(MTr):
             return self.block(rest, kont)
         if isinstance(s, ast.Pass):
             return self.block(rest, kont)
-        if isinstance(s, ast.ImportFrom) and all((a.asname or a.name) in (self.prog.externs.get('ref_functions') or {}) for a in s.names):
+        if isinstance(s, ast.ImportFrom) and all((a.asname or a.name) in (self.prog.externs.get('ref_functions') or {}) or
+                                                 ((a.asname or a.name) in self.prog.classes and not a.asname) for a in s.names):
             return self.block(rest, kont)
         if isinstance(s, ast.Raise):
             return '(self, none)'
@@ -769,6 +822,7 @@ class STr(MTr):
                 raise Untranslatable(f'self.{tg.attr} is assigned a {t}, declared {want}')
             fld = self.decl['fields'][tg.attr]
             self.pre.append(('set', None, f'{{ self with {fld} := {v} }}'))
+            self.mutates = True
             pre = self.take_pre()
             return self.wrap(pre, self.block(rest, kont))
         raise Untranslatable(f'assignment target {ast.unparse(tg)[:40]}')
@@ -842,7 +896,11 @@ class STr(MTr):
                     del self.unwrapped[key]
                 self.env = dict(env0)
                 return f'match {x} with\n| none =>\n{indent(a)}\n| some {var} =>\n{indent(b)}'
-        c = self.truth(self.expr(s.test))
+        self.cond += 1
+        try:
+            c = self.truth(self.expr(s.test))
+        finally:
+            self.cond -= 1
         pre = self.take_pre()
         a = branch(body_a, kont)
         b = branch(body_b, kont)
@@ -950,5 +1008,6 @@ class STr(MTr):
         ps = ' '.join(f'({n} : {self.prog.lean_ty(t)})' for n, t in self.params)
         st = self.state_ty()
         doc = pybytes.doc_of(self.fn, f'{self.decl.get("src", self.prog.src)}: {self.cls}.{self.fn.name}')
-        text = f'{doc}def {self.lean} {ps + " " if ps else ""}(self : {st}) : {st} × Option {tpar(self.prog.lean_ty(rt))} :=\n{indent(body)}\n'
-        return dict(lean=self.lean, params=self.params, ret=rt, text=text, retry=retry)
+        mk = f'(mk : {self.prog.externs["mk"]}) ' if self.uses_mk else ''
+        text = f'{doc}def {self.lean} {mk}{ps + " " if ps else ""}(self : {st}) : {st} × Option {tpar(self.prog.lean_ty(rt))} :=\n{indent(body)}\n'
+        return dict(lean=self.lean, params=self.params, ret=rt, text=text, retry=retry, mk=self.uses_mk, mutates=self.mutates)
